@@ -32,7 +32,7 @@ impl Property for C02 {
         "C02"
     }
     fn rule(&self) -> String {
-        "Generated: (language, text, threshold, hint bytes): texts from the clean and dirty sentence generators (number words of every class, speller phrases, ordinals, conjunction/separator/linking/filler words, punctuation, mixed whitespace incl. NBSP/thin space/tab/newline, recasing, glue, truncated words, hostile unicode fragments) and arbitrary unicode strings; thresholds incl. non-finite. Oracle: (1) concatenation of the tokenizer's tokens == input; (2) replace_numbers_in_text == our splice of the tokens with the occurrences reported by find_numbers on the annotated tokens; (3) no occurrence => output byte-identical, and a text the generator built only from ordinary words and punctuation is returned identical; (4) on an id-recording token stream with random separation / not-a-number hints, replace_numbers_in_stream hands each token exactly once and in order either through unchanged or to the replacement constructor of the one occurrence covering it (ids 0..n flatten in order; replaced groups == find_numbers spans with that occurrence's text). Non-trivial = distinct texts with >= 1 occurrence and >= 1 non-ASCII or punctuation token.".into()
+        "Generated: (language, text, threshold, hint bytes): texts from the clean and dirty sentence generators (number words of every class, speller phrases, ordinals, conjunction/separator/linking/filler words, punctuation, mixed whitespace incl. NBSP/thin space/tab/newline, recasing, glue, truncated words, hostile unicode fragments) and arbitrary unicode strings; thresholds incl. non-finite. Oracle: (1) concatenation of the tokenizer's tokens == input; (2) replace_numbers_in_text == our splice of the tokens with the occurrences reported by find_numbers on the annotated tokens; (3) no occurrence => output byte-identical, and a text the generator built only from ordinary words and punctuation is returned identical; (4) on an id-recording token stream with random separation / not-a-number hints, replace_numbers_in_stream hands each token exactly once and in order either through unchanged or to the replacement constructor of the one occurrence covering it (ids 0..n flatten in order; replaced groups == find_numbers spans with that occurrence's text). Whole-run procedure: clause (2) on long documents (W ordinary words with 2W tokens just above 2^10..2^16, 1000, 10 000, 50 000 - thorough up to 2^20 - followed by tails whose small numbers are linked across punctuation), threshold 10. Non-trivial = distinct texts with >= 1 occurrence and >= 1 non-ASCII or punctuation token.".into()
     }
     fn assumptions(&self) -> Vec<String> {
         vec!["clause (2) compares two routes through the library (drain/insert/join vs. reported spans); the independent parts are splice, concat and the id accounting".into()]
@@ -69,7 +69,51 @@ impl Property for C02 {
         let t = crate::fuzzdec::decode_text(data);
         Some(Case { lang: t.lang.into(), text: t.text, th_bits: t.th_bits, hints: t.hints, numberless: false })
     }
+    fn extra(&self, tier: Tier, _seed: u64, obs: &mut Obs) -> Result<(), (String, serde_json::Value)> {
+        // long documents: the rewrite must still be the splice of the occurrences reported for the whole token list
+        use super::common::{long_doc, long_doc_sizes, long_doc_tails};
+        let jobs: Vec<(&'static str, usize, String)> = LANGS.iter().flat_map(|l| long_doc_sizes(tier == Tier::Thorough).into_iter().flat_map(move |sz| long_doc_tails(l).into_iter().map(move |t| (*l, sz, t)))).collect();
+        let bad: std::sync::Mutex<Option<(String, serde_json::Value)>> = std::sync::Mutex::new(None);
+        let n = std::sync::atomic::AtomicU64::new(0);
+        std::thread::scope(|s| {
+            for th in 0..16usize {
+                let (jobs, bad, n) = (&jobs, &bad, &n);
+                s.spawn(move || {
+                    for (i, (l, sz, tail)) in jobs.iter().enumerate() {
+                        if i % 16 != th || bad.lock().unwrap().is_some() {
+                            continue;
+                        }
+                        let lg = lang(l);
+                        let (prefix, tail) = long_doc(l, *sz, 2, tail);
+                        let doc = format!("{}{}", prefix, tail);
+                        let t = 10.0f64;
+                        let r = std::panic::catch_unwind(|| {
+                            let (toks, o) = scan(&doc, lg, t);
+                            (replace_numbers_in_text(&doc, lg, t), splice(&toks, &o))
+                        });
+                        let Ok((out, sp)) = r else { continue };
+                        n.fetch_add(1, std::sync::atomic::Ordering::Relaxed);
+                        if out != sp {
+                            let tl = |x: &str| x.chars().rev().take(80).collect::<Vec<_>>().into_iter().rev().collect::<String>();
+                            *bad.lock().unwrap() = Some((
+                                format!("[{}] long document ({} ordinary words + {:?}), threshold 10: rewrite ends {:?} but the splice of the reported occurrences ends {:?}", l, sz / 2 + 2, tail, tl(&out), tl(&sp)),
+                                json!({"lang": l, "text": format!("<{} x {:?}> {}", sz / 2 + 2, vocab_of(l).fillers[0], tail), "th_bits": t.to_bits(), "hints": [], "numberless": false}),
+                            ));
+                            return;
+                        }
+                    }
+                });
+            }
+        });
+        obs.evaluations += n.load(std::sync::atomic::Ordering::Relaxed);
+        obs.label("long-document-splice");
+        match bad.into_inner().unwrap() {
+            Some(e) => Err(e),
+            None => Ok(()),
+        }
+    }
     fn check(&self, c: &Case, obs: &mut Obs) -> Result<(), String> {
+        CONSUME_LIMIT.with(|c| c.set(usize::MAX));
         let lg = lang(&c.lang);
         let th = th_of(c.th_bits);
         let s = &c.text;
@@ -110,12 +154,28 @@ impl Property for C02 {
         let mut k = 0;
         while i < n {
             if k < occ.len() && occ[k].start == i && occ[k].end > i && occ[k].end <= n {
-                expect.push(Tk { ids: (occ[k].start..occ[k].end).collect(), text: occ[k].text.clone(), lower: occ[k].text.to_lowercase(), sep: false, nan: false, replaced: true });
+                expect.push(Tk { ids: (occ[k].start..occ[k].end).collect(), text: occ[k].text.clone(), lower: occ[k].text.to_lowercase(), sep: false, nan: false, replaced: true, pause_after: false, via_prev: false });
                 i = occ[k].end;
                 k += 1;
             } else {
                 expect.push(stream[i].clone());
                 i += 1;
+            }
+        }
+        // a replacement constructor may read none, one or all of the tokens it is handed: the stream must
+        // come out the same (unread tokens are consumed by the library, not left behind)
+        for limit in [0usize, 1] {
+            CONSUME_LIMIT.with(|c| c.set(limit));
+            let part = replace_numbers_in_stream(stream.clone(), lg, th);
+            CONSUME_LIMIT.with(|c| c.set(usize::MAX));
+            let shape = |v: &[Tk]| v.iter().map(|t| (t.text.clone(), t.replaced, if t.replaced { vec![] } else { t.ids.clone() })).collect::<Vec<_>>();
+            if shape(&part) != shape(&res) {
+                return Err(format!("stream rewrite depends on how many replaced tokens the replacement constructor reads (limit {})\n text {:?} th={}\n reads all: {:?}\n reads {}: {:?}", limit, s, fmt_th(c.th_bits), shape(&res), limit, shape(&part)));
+            }
+            for t in part.iter().filter(|t| t.replaced) {
+                if t.ids.len() > limit {
+                    return Err(format!("replacement constructor asked for {} tokens but got {}", limit, t.ids.len()));
+                }
             }
         }
         if k != occ.len() || expect != res {
